@@ -7,6 +7,7 @@ import Csvq.Model.ParseTime
 import Csvq.Model.FormatFloat
 import Csvq.Model.FormatTime
 import Csvq.Model.CellText
+import Csvq.Model.Unicode
 namespace Csvq.Drive
 open Csvq Csvq.Proto
 
@@ -135,6 +136,24 @@ def c06 (cmd : String) (args : List String) : String :=
       let kt : KeyText := { itext := decText, ftext := FF.fmtF }
       String.intercalate " " ["x" ++ hex tf, "x" ++ hex (cellText v false true off), "x" ++ hex (cellText v true false off),
         (cmp p q).toStr, (opEq p q).toStr, (opLt p q).toStr, "x" ++ hex (serKey kt (norm p)), "x" ++ hex (serKey kt (norm q))]
+    | _, _ => bad
+  | "utables", [] =>
+    -- the table facts the theorems of Props/C06Text.lean assume, evaluated on the regenerated tables
+    (if Uni.tablesOK then "1" else "0") ++ " " ++ Gen.Uni.unicodeVersion
+  | "uclass", [r] =>
+    -- unicode.IsLetter IsDigit IsSpace ToUpper ToLower ToTitle SimpleFold of one rune
+    match r.toNat? with
+    | some r =>
+      let b (x : Bool) : String := if x then "1" else "0"
+      String.intercalate " " [b (Uni.isLetter r), b (Uni.isDigit r), b (Uni.isSpace r), toString (Uni.toUpper r),
+        toString (Uni.toLower r), toString (if r ≤ 127 then Uni.toUpper r else Uni.toCase 2 r), toString (Uni.simpleFold r)]
+    | none => bad
+  | "upper", [a, b] =>
+    -- strings.ToUpper(option.TrimSpace(·)) of both texts, strings.ToLower(a), strings.EqualFold(a, b)
+    match parseHexX a, parseHexX b with
+    | some a, some b =>
+      String.intercalate " " ["x" ++ hex (Uni.strToUpper (PF.trimSpace a)), "x" ++ hex (Uni.strToUpper (PF.trimSpace b)),
+        "x" ++ hex (Uni.strToLower a), if Uni.equalFold a b then "1" else "0"]
     | _, _ => bad
   | "prof", [v] =>
     match parseVal v with
